@@ -274,6 +274,17 @@ ESCAPE_END:
 			i = j + 1
 			j = j + 1
 			continue
+
+		case 0xE2:
+			// U+2028 and U+2029 are escaped with HTML escaping on, normalised or not
+			if j+2 < valLen && s[j+1] == 0x80 && s[j+2]&^1 == 0xA8 {
+				buf = append(buf, s[i:j]...)
+				buf = append(buf, `\u202`...)
+				buf = append(buf, hex[s[j+2]&0xF])
+				i = j + 3
+				j = j + 3
+				continue
+			}
 		}
 		j++
 	}
